@@ -55,7 +55,7 @@ func init() {
 func c04(r *Run) {
 	w := r.W
 	r.rule("C04.R1", "K11", "Rollback: a case per opType constant, each constant assigned by a mutator; newest-first iteration down to restorePoint; log truncated", 5)
-	r.rule("C04.R2", "K7", "Insert/Remove: a path that stores to the view's maps appends exactly one op; past values read before the first store", 4)
+	r.rule("C04.R2", "K7", "Insert/Remove: a path that stores to the view's maps appends exactly one op; past values read before the first store; a pending entry is set only together with writes[k]", 6)
 	r.rule("C04.R3", "K1", "a mutator deletes its pending entry only under isUnchanged == true", 2)
 	r.rule("C04.R4", "K1", "getValue: pending, then block diff, then parent, each only on a miss", 3)
 	r.rule("C04.R5", "K4", "Commit publishes every pending entry under TState.l", 2)
@@ -184,6 +184,26 @@ func c04(r *Run) {
 			}
 		}
 		r.check(okk, "C04.R2", name+":past-read-before-change", r.at(w, ap), "pastV/pastAllocates/pastWrites are read before any change", detail)
+		// Rollback tells "the key had a pending entry before this op" from pastWrites != nil, so a pending entry may
+		// only be set on paths that also set writes[k] unconditionally
+		pend := findEffects(f, "mapupdate p0.pendingChangedKeys[string(p2)] = *")
+		isW := func(i ssa.Instruction) bool {
+			for _, e := range findEffects(f, "mapupdate p0.writes[string(p2)] = *") {
+				if e.Ins == i {
+					return true
+				}
+			}
+			return false
+		}
+		okk = len(pend) >= 1
+		detail = "no pending-entry update found"
+		for _, p := range pend {
+			if found, _ := pathExists(point{f.Blocks[0], 0}, isInstr(p.Ins), isW, nil); found {
+				okk = false
+				detail = "a path sets pendingChangedKeys[k] without setting writes[k]; a later op records pastWrites == nil and Rollback to a checkpoint between them drops the pending value"
+			}
+		}
+		r.check(okk, "C04.R2", name+":pending-implies-writes-marker", r.at(w, ap), "every path that sets the pending entry sets writes[k]", detail)
 		// the recorded key is the operated key
 		r.requireEffect(w, "C04.R2", name+":op.k", f, "store alloc(complit).k = string(p2)")
 	}
